@@ -727,7 +727,7 @@ class Interp:
         if op is ast.BitXor:
             return d.bitop('^', d.lift(a), d.lift(b))
         if op is ast.Div:
-            raise Unsupported('true division of symbolic values')
+            return Ratio(a, b)
         if op is ast.Pow:
             raise Unsupported('symbolic power')
         raise Unsupported('binop %s' % op.__name__)
@@ -1079,6 +1079,11 @@ class Interp:
                 lv = dm.lift(v)
                 acc = Sym('int', z3.If(c.t, lv.t, acc.t), max(lv.mag or 0, acc.mag or 0) or None)
             return acc
+        h = self.hooks.get('dict_pick')
+        if h is not None:
+            r = h(self, d, key, cands)
+            if r is not None:
+                return r
         for k in cands:
             if self.run.branch(self.compare(ast.Eq(), key, k).t):
                 return d[k]
@@ -1106,7 +1111,7 @@ class Interp:
         if isinstance(obj, (list, tuple, str, bytes, bytearray)):
             if isinstance(idx, slice):
                 if any(is_sym(x) for x in (idx.start, idx.stop, idx.step)):
-                    return Opaque('slice')
+                    return SliceOf(obj, idx.start, idx.stop)
                 return obj[idx]
             if is_sym(idx):
                 if isinstance(obj, (list, tuple)) and idx.sort in ('int', 'bool'):
@@ -1127,7 +1132,9 @@ class Interp:
             if h:
                 return h(self, obj, idx)
             return Opaque('str')
-        if isinstance(obj, Opaque):
+        if isinstance(obj, (Opaque, ByteBuf, SymBytes)):
+            if isinstance(idx, slice):
+                return SliceOf(obj, idx.start, idx.stop)
             h = self.hooks.get('opaque_index')
             if h:
                 return h(self, obj, idx)
@@ -1857,6 +1864,20 @@ class ByteBuf:
 
     def __deepcopy__(self, memo):
         return self
+
+
+class Ratio(Opaque):
+    """a / b (true division) kept symbolic"""
+
+    def __init__(self, num, den):
+        super().__init__('float')
+        self.num, self.den = num, den
+
+
+class SliceOf(Opaque):
+    def __init__(self, base, start, stop):
+        super().__init__('slice')
+        self.base, self.start, self.stop = base, start, stop
 
 
 class CUInt:
